@@ -19,7 +19,8 @@ RULE = (
     "enumerated: 7 named gates x placements {electron, carbon}; CNOT/CPHASE for every ordered pair of distinct virtual ids "
     "from {0,1,2,3}; MOV 0->k and k->0; rotations 3 axes x n 0..255 x d (quick: d<=5 complete + Hypothesis-drawn (n,d); "
     "thorough: all 256x256) in simulation mode and d 0..4 in hardware mode; published to_matrix()/to_matrix_target_only() of "
-    "every vanilla and NV instruction class.  Every case is non-trivial; distinct by (gate, placement, n, d, mode)"
+    "every vanilla and NV instruction class; Hypothesis-drawn straight-line sequences of 2..6 gates over 2..4 qubits and six Q "
+    "registers (whole-circuit unitary).  Every case is non-trivial; distinct by (gate, placement, n, d, mode) / sequence"
 )
 ASSUMPTIONS = [
     "R_a(t)=exp(-i t sigma_a/2); crot_a(t)=|0><0|(x)R_a(t)+|1><1|(x)R_a(-t), first operand control, axis from the mnemonic",
@@ -316,8 +317,76 @@ def shard(ctx: Ctx) -> None:
 
         ctx.search(st.tuples(st.sampled_from("xyz"), st.integers(0, 255), st.integers(0, 255), st.integers(0, 1)), body, 2000, name="c07-rot")
 
+    def body_seq(case):
+        cc = sum(1 for g_ in case["gates"] if g_[0] in ("cnot", "cphase") and 0 not in g_[1])
+        stt.case(case, True, ["sequence", f"carbon-carbon:{min(cc, 3)}"], sample=case if cc >= 2 and len(stt.samples) < 5 else None)
+        check_sequence(case)
+
+    ctx.search(st_sequence(), body_seq, 1500 if ctx.tier == "quick" else 4000, name="c07-seq", salt=2)
+
+
+@st.composite
+def st_sequence(draw):
+    """straight-line SDK-idiom gate sequences over several Q registers: the expansion of one gate must not disturb the next"""
+    nq = draw(st.integers(2, 4))
+    regs = [0, 1, 2, 3, 4, 5]
+    gates = []
+    for _ in range(draw(st.integers(2, 6))):
+        k = draw(st.integers(0, 5))
+        if k <= 3 and nq >= 2:
+            a = draw(st.integers(0, nq - 1))
+            b = draw(st.sampled_from([x for x in range(nq) if x != a]))
+            ra = draw(st.sampled_from(regs))
+            rb = draw(st.sampled_from([r for r in regs if r != ra]))
+            gates.append([draw(st.sampled_from(["cnot", "cphase"])), [a, b], [ra, rb]])
+        elif k == 4:
+            gates.append([draw(st.sampled_from(sorted(qm.NAMED))), [draw(st.integers(0, nq - 1))], [draw(st.sampled_from(regs))]])
+        else:
+            gates.append(["rot_" + draw(st.sampled_from("xyz")), [draw(st.integers(0, nq - 1))], [draw(st.sampled_from(regs))], draw(st.integers(0, 31)), draw(st.integers(0, 4))])
+    return {"gate": "sequence", "nq": nq, "gates": gates}
+
+
+def check_sequence(case) -> None:
+    from netqasm.lang.instr import vanilla
+    from netqasm.lang.operand import Immediate
+
+    nq = case["nq"]
+    instrs = []
+    want = np.eye(2**nq, dtype=complex)
+    cls1 = {"x": vanilla.GateXInstruction, "y": vanilla.GateYInstruction, "z": vanilla.GateZInstruction, "h": vanilla.GateHInstruction,
+            "k": vanilla.GateKInstruction, "s": vanilla.GateSInstruction, "t": vanilla.GateTInstruction}
+    for gte in case["gates"]:
+        name, ids, regs = gte[0], gte[1], gte[2]
+        for r, q in zip(regs, ids):
+            instrs.append(_set(_Q(r), q))
+        if name in ("cnot", "cphase"):
+            instrs.append((vanilla.CnotInstruction if name == "cnot" else vanilla.CphaseInstruction)(reg0=_Q(regs[0]), reg1=_Q(regs[1])))
+            want = qm.embed(qm.CNOT if name == "cnot" else qm.CZ, ids, nq) @ want
+        elif name.startswith("rot_"):
+            c = {"rot_x": vanilla.RotXInstruction, "rot_y": vanilla.RotYInstruction, "rot_z": vanilla.RotZInstruction}[name]
+            instrs.append(c(reg=_Q(regs[0]), imm0=Immediate(gte[3]), imm1=Immediate(gte[4])))
+            want = qm.embed(qm.rot(name[-1], qm.angle(gte[3], gte[4])), ids, nq) @ want
+        else:
+            instrs.append(cls1[name](reg=_Q(regs[0])))
+            want = qm.embed(qm.NAMED[name], ids, nq) @ want
+    out = transpile(instrs)
+    try:
+        U = sequence_unitary(out, nq)
+    except Failure as f:
+        raise Failure(f.signature, case, f.message)
+    except KeyError as e:
+        raise Failure("sequence:undefined-register", case, f"the emitted sequence uses a Q register that was never set: {e}")
+    if not qm.equal_up_to_phase(U, want, 1e-8):
+        raise Failure("sequence:unitary", case, f"NV expansion of the gate sequence {case['gates']} differs from the vanilla circuit (distance {qm.phase_distance(U, want):.3g}); emitted: {[str(i) for i in out][:40]}")
+
 
 def replay(case):
+    if case.get("gate") == "sequence":
+        try:
+            check_sequence(case)
+        except Failure as f:
+            return f
+        return None
     try:
         if case.get("gate") == "matrix":
             check_matrix(case)
